@@ -182,7 +182,7 @@ StageRun(p, st, args, path, cidx, deps, dims) ==
                \o (IF st.split THEN <<base @@ [kind |-> "join", chunk |-> 0, args |-> VObj(args),
                                                outs |-> VObj(outs),
                                                couts |-> VArr([i \in 1..n |-> VObj(couts[i])])]>> ELSE <<>>)
-    IN [dis |-> FALSE, outs |-> outs, inv |-> inv, insts |-> {inst},
+    IN [dis |-> FALSE, outs |-> outs, inv |-> inv, insts |-> {inst}, wk |-> FALSE,
         pv |-> [x \in DOMAIN outs |-> {inst}], dm |-> [x \in DOMAIN outs |-> dims]]
 
 ---------------------------------------------------------------------------
@@ -255,11 +255,11 @@ EvalPipe(p, pl, A, path, ctx) ==
         outs |-> [x \in onames |-> Conv(p, Lookup(pl.outs, x).t, rets[ri(x)].v)],
         pv |-> [x \in onames |-> rets[ri(x)].pv],
         dm |-> [x \in onames |-> rets[ri(x)].dm],
-        inv |-> done.inv, insts |-> {done.inv[i].inst : i \in DOMAIN done.inv}]
+        inv |-> done.inv, insts |-> {done.inv[i].inst : i \in DOMAIN done.inv}, wk |-> done.wk]
 
 (* evaluate calls k..n of pipeline pl in order, threading env and invocations *)
 EvalCalls(p, pl, env, k, path, ctx) ==
-    IF k > Len(pl.calls) THEN [env |-> env, inv |-> <<>>]
+    IF k > Len(pl.calls) THEN [env |-> env, inv |-> <<>>, wk |-> FALSE]
     ELSE
       LET c == pl.calls[k]
           \* every non-preflight call depends on the preflight calls of this pipeline
@@ -269,7 +269,7 @@ EvalCalls(p, pl, env, k, path, ctx) ==
           r == EvalCall(p, pl, env, c, path, [ctx EXCEPT !.extra = ctx.extra \cup prepv])
           env2 == [env EXCEPT !.res = (c.id :> r) @@ env.res]
           rest == EvalCalls(p, pl, env2, k + 1, path, ctx)
-      IN [env |-> rest.env, inv |-> r.inv \o rest.inv]
+      IN [env |-> rest.env, inv |-> r.inv \o rest.inv, wk |-> r.wk \/ rest.wk]
 
 EvalCall(p, pl, env, c, path, ctx) ==
     LET callee == Callee(p, c.callee)
@@ -284,8 +284,8 @@ EvalCall(p, pl, env, c, path, ctx) ==
         pnames == {bname(i) : i \in DOMAIN c.binds}
         ptype(n) == Lookup(callee.ins, n).t
         splits == {i \in DOMAIN c.binds : c.binds[i].e.k = "split"}
-        mk(val, opv, odm, inv, t, dis) ==
-            [dis |-> dis, val |-> val, opv |-> opv, odm |-> odm, inv |-> inv, t |-> t,
+        mk(val, opv, odm, inv, t, dis, wk) ==
+            [dis |-> dis, val |-> val, opv |-> opv, odm |-> odm, inv |-> inv, t |-> t, wk |-> wk,
              insts |-> {inv[i].inst : i \in DOMAIN inv},
              allpv |-> IF dis THEN dv.pv \cup ctx.extra ELSE UNION {opv[o] : o \in DOMAIN opv},
              alldm |-> UNION {odm[o] : o \in DOMAIN odm} \cup (IF dis THEN dv.dm \cup ctx.xdm ELSE {})]
@@ -299,9 +299,9 @@ EvalCall(p, pl, env, c, path, ctx) ==
         IN
         \* which dimensions a result varies with is a static matter: a disabled
         \* call has the dimensions it would have had
-        IF isdis THEN mk(Null, [o \in onames |-> dv.pv], [o \in onames |-> r.dm[o] \cup dv.dm], <<>>, ot, TRUE)
+        IF isdis THEN mk(Null, [o \in onames |-> dv.pv], [o \in onames |-> r.dm[o] \cup dv.dm], <<>>, ot, TRUE, FALSE)
         ELSE mk(VObj(r.outs), [o \in onames |-> r.pv[o] \cup dv.pv], [o \in onames |-> r.dm[o] \cup dv.dm],
-              r.inv, ot, FALSE)
+              r.inv, ot, FALSE, r.wk)
     ELSE
         \* mapped call: keys = indices (arrays) or keys (typed maps) of the split sources
         LET anynull == \E i \in splits : IsNull(bs[i].v)
@@ -356,8 +356,11 @@ EvalCall(p, pl, env, c, path, ctx) ==
             \* element at all, stages below that do not vary with this dimension are
             \* still executed once.  They are listed as "ghost" invocations.
             ghosts == IF keys # <<>> THEN <<>> ELSE Ghosts(probe.inv)
-        IN IF isdis THEN mk(Null, [o \in onames |-> dv.pv], odm, <<>>, mt, TRUE)
-           ELSE mk(val, opv, odm, Cat(1) \o ghosts, mt, FALSE)
+            \* does the known defect "unforked-merge" concern this program?
+            wk == (spv # {} /\ \E o \in onames : ~forked(o))
+                  \/ (\E j \in DOMAIN keys : rs[j].wk) \/ (keys = <<>> /\ probe.wk)
+        IN IF isdis THEN mk(Null, [o \in onames |-> dv.pv], odm, <<>>, mt, TRUE, FALSE)
+           ELSE mk(val, opv, odm, Cat(1) \o ghosts, mt, FALSE, wk)
 
 ---------------------------------------------------------------------------
 (* Whole program *)
